@@ -2,6 +2,7 @@ package main
 
 import (
 	"fmt"
+	"math/big"
 	"strings"
 
 	"github.com/cockroachdb/apd/v3"
@@ -131,6 +132,45 @@ func init() {
 				y := r.cmpVariant(x)
 				if y.Form != apd.Finite {
 					y = r.genFinite(&ctx)
+				}
+				if r.coin(35) {
+					// make the rounding of y discard a number of digits at a machine-word boundary
+					if np := int(y.NumDigits()) - []int{18, 19, 19, 20, 38, 39}[r.intn(6)]; np >= 1 && np <= int(ctx.MaxExponent) {
+						ctx.Precision = uint32(np)
+					}
+				}
+				if r.coin(25) {
+					// directed: x = prefix.tail, y = the same value padded with k zeros (+ j), Precision =
+					// digits of the prefix, so that y's rounding discards D digits (a machine-word boundary)
+					// while x's discards D-k; the tails sit on either side of one half or near one
+					q := r.rangeI(1, 12)
+					d := []int{18, 19, 19, 20, 38, 39}[r.intn(6)]
+					k := r.rangeI(1, d-2)
+					m := d - k
+					tail := r.randDigits(m)
+					switch r.intn(4) {
+					case 0: // 0.92.. to 0.99..
+						lead := int64(r.rangeI(92, 99))
+						if m >= 2 {
+							tail = new(big.Int).Add(new(big.Int).Mul(big.NewInt(lead), pow10(m-2)), new(big.Int).Mod(tail, pow10(m-2)))
+						}
+					case 1: // just above one half
+						tail = new(big.Int).Add(new(big.Int).Mul(big.NewInt(5), pow10(m-1)), big.NewInt(int64(r.rangeI(0, 2))))
+					case 2: // just below one half
+						tail = new(big.Int).Sub(new(big.Int).Mul(big.NewInt(5), pow10(m-1)), big.NewInt(int64(r.rangeI(1, 2))))
+					}
+					pre := r.coeffShape(q)
+					if pre.Sign() == 0 {
+						pre = big.NewInt(1)
+					}
+					xc := new(big.Int).Add(new(big.Int).Mul(pre, pow10(m)), tail)
+					yc := new(big.Int).Add(new(big.Int).Mul(xc, pow10(k)), big.NewInt(int64(r.rangeI(0, 1))))
+					ng := r.coin(50)
+					e0 := r.rangeI(-30, 5)
+					ctx.Precision = uint32(len(pre.String()))
+					ctx.MaxExponent, ctx.MinExponent = 200, -200
+					x = mkDec(apd.Finite, ng, xc, e0)
+					y = mkDec(apd.Finite, ng, yc, e0-k)
 				}
 				emit(runMono(ctx, r.intn(8), x, y))
 				continue
